@@ -174,7 +174,7 @@ class WebsocketSession(object):
         except _SocketFail as error:
             self._socket_fail('unable to connect to proxy; {}', error)
         proxy_request = proxy.build_request(
-            self.websocket.host, self.websocket.port,
+            self.websocket._host, self.websocket.port,
             proxy_username=_proxy_url.username,
             proxy_password=_proxy_url.password
         )
